@@ -109,10 +109,13 @@ def inv_pool(n_samples, seed):
         rare = [x for x in arcs if count.get(x, 0) < 4]
         if rare:
             pool.append({"n": n, "rows": rows,
-                         "new_transitions": sorted(f"{f}:{p}->{q}" for f, p, q in rare if count.get((f, p, q), 0) == 0)})
+                         "new_transitions": sorted(f"{f}:{p}->{q}" for f, p, q in rare if count.get((f, p, q), 0) == 0),
+                         "_arcs": sorted(f"{f}:{p}->{q}" for f, p, q in arcs)})
         for x in arcs:
             count[x] = count.get(x, 0) + 1
     rare_arcs = {f"{f}:{p}->{q}": c for (f, p, q), c in count.items() if c <= max(10, n_samples // 400)}
+    for rec in pool:
+        rec["rare_transitions"] = sorted(set(rec.pop("_arcs")) & set(rare_arcs))
     out = {"how": f"python -m engine.covpool inv --n {n_samples} --seed {seed}", "sampled": n_samples,
            "transitions_seen": len(count), "rarely_executed": rare_arcs, "states": pool}
     json.dump(out, open(os.path.join(VERIF, "pools", "inv_states.json"), "w"), indent=1)
@@ -142,10 +145,13 @@ def main():
         rare = [x for x in arcs if count.get(x, 0) < 6]
         if rare:
             pool.append({"n": n, "edges": sorted([min(u, v), max(u, v)] for u, v in g.edges()),
-                         "new_transitions": sorted(f"{f}:{p}->{q}" for f, p, q in rare if count.get((f, p, q), 0) == 0)})
+                         "new_transitions": sorted(f"{f}:{p}->{q}" for f, p, q in rare if count.get((f, p, q), 0) == 0),
+                         "_arcs": sorted(f"{f}:{p}->{q}" for f, p, q in arcs)})
         for x in arcs:
             count[x] = count.get(x, 0) + 1
     rare_arcs = {f"{f}:{p}->{q}": c for (f, p, q), c in count.items() if c <= max(10, a.n // 400)}
+    for rec in pool:
+        rec["rare_transitions"] = sorted(set(rec.pop("_arcs")) & set(rare_arcs))
     out = {"how": f"python -m engine.covpool trs --n {a.n} --seed {a.seed} (repo HEAD at the time: see git log)",
            "sampled": a.n, "transitions_seen": len(count), "rarely_executed": rare_arcs, "graphs": pool}
     os.makedirs(os.path.join(VERIF, "pools"), exist_ok=True)
